@@ -473,46 +473,146 @@ def rule_projector_call_sites(rep: Report, repo: Repo):
                 rep.check(ok, R, f"{mod}::{fn} `ComplementProjector({', '.join(args)})` passes (right vectors, left vectors)",
                           f"argument roles {roles}", repo.loc(mod, node))
     rep.floor(R, "ComplementProjector construction sites", n, 4)
-    # op_eval: block(i, j) = L_i^H . A . R_j
+    _operator_to_blockseries(rep, repo, R)
+
+
+def _strip_seq(e):
+    """tuple(X) / list(X) / [*X] -> X"""
+    while isinstance(e, ast.Call) and call_name(e) in ("tuple", "list") and len(e.args) == 1:
+        e = e.args[0]
+    return e
+
+
+def _is_adjoint_each(e, seq_name: str) -> bool:
+    """(Dagger(x) for x in <seq_name>) in generator / list form, optionally wrapped in tuple()."""
+    e = _strip_seq(e)
+    if not isinstance(e, (ast.GeneratorExp, ast.ListComp)) or len(e.generators) != 1:
+        return False
+    g = e.generators[0]
+    return (not g.ifs and isinstance(g.target, ast.Name) and norm(g.iter) == seq_name and isinstance(e.elt, ast.Call)
+            and call_name(e.elt) == "Dagger" and len(e.elt.args) == 1 and norm(e.elt.args[0]) == g.target.id)
+
+
+def _operator_to_blockseries(rep: Report, repo: Repo, R: str):
+    """block (i, j) of the separated operator is L_i^H . A . R_j, with the complement projector as the last member of
+    both families in implicit mode; decided on resolved expressions (local names are free)."""
+    from .e2c import _const_eval
+    from .resolve import env_at, resolved, run_block
+    from .sem import Scope, canon, outcomes
+
     f = repo.find("block_diagonalization::operator_to_BlockSeries", R)
     loc = lambda x: repo.loc("block_diagonalization", x)
-    asg = {}
-    for s in own_nodes(f):
-        if isinstance(s, ast.Assign) and isinstance(s.targets[0], ast.Name):
-            asg.setdefault(s.targets[0].id, []).append(s.value)
-    def family(name):
-        """-> list of (member-expression-kind) for each assignment of the projector family."""
-        out = []
-        for v in asg.get(name, []):
-            out.append(norm(v))
-        return out
-    rp, lp = family("right_projectors"), family("left_projectors")
-    ok_r = set(rp) == {"(*right_subspaces, implicit_projector)", "right_subspaces"}
-    rep.check(ok_r, R, "operator_to_BlockSeries right projectors are the right vectors R_j (+ complement projector)",
-              str(rp), loc(f))
-    ok_l = set(lp) == {"(*(Dagger(left) for left in left_subspaces), implicit_projector)",
-                       "tuple((Dagger(left) for left in left_subspaces)) if left_subspaces is not None else None"}
-    rep.check(ok_l, R, "operator_to_BlockSeries left projectors are the adjoints L_i^H (+ the same complement projector)",
-              str(lp), loc(f))
     ev = [d for d in nested_defs(f) if d.name == "op_eval"]
     if len(ev) != 1:
         raise AnalysisError(R, "op_eval not found")
-    rets = [r for r in own_nodes(ev[0]) if isinstance(r, ast.Return) and isinstance(r.value, ast.Call)
-            and call_name(r.value) == "_convert_if_zero"]
-    ok = len(rets) == 1 and norm(rets[0].value.args[0]) == "left_projectors[left] @ original @ right_projectors[right]"
-    un = [s for s in own_nodes(ev[0]) if isinstance(s, ast.Assign) and norm(s.value) == "index[:2]"]
-    ok = ok and len(un) == 1 and norm(un[0].targets[0]) == "(left, right)"
-    rep.check(ok, R, "operator_to_BlockSeries::op_eval returns L_{index[0]}^H . A . R_{index[1]}",
-              norm(rets[0].value.args[0]) if rets else "missing", loc(ev[0]))
-    # the implicit block alone is wrapped as a LinearOperator, and only the (n-1, n-1) block
-    wraps = [s for s in own_nodes(ev[0]) if isinstance(s, ast.If) and "aslinearoperator" in norm(s.body[0])]
-    ok = len(wraps) == 1 and norm(wraps[0].test) == "implicit and left == right == n_blocks - 1"
-    rep.check(ok, R, "operator_to_BlockSeries::op_eval wraps only the implicit (last, last) block as LinearOperator",
-              norm(wraps[0].test) if wraps else "missing", loc(ev[0]))
-    imp = asg.get("implicit_projector", [])
-    ok = len(imp) == 1 and norm(imp[0]) == "ComplementProjector(np.hstack(right_subspaces), np.hstack(left_subspaces))"
-    rep.check(ok, R, "operator_to_BlockSeries complement projector is 1 - [R_1..R_k].[L_1..L_k]^H over all explicit subspaces",
-              norm(imp[0]) if imp else "missing", loc(f))
+    ev = ev[0]
+    scope = Scope(repo.trees["block_diagonalization"], ev)
+    outer_env = env_at(ev, f)
+    # -- op_eval paths on a grid of concrete block indices ----------------------------------------------------------
+    fam = set()
+    n_proj = 0
+    bad = set()
+    for implicit in (False, True):
+        for N in (2, 3):
+            for a in range(N):
+                for b in range(N):
+                    sub = {"index[0]": a, "index[1]": b, "implicit": implicit, "hermitian": False, "n_blocks": N}
+                    for k, v in outer_env.items():
+                        if k == "n_blocks":
+                            sub[norm(v)] = N
+                    atom = lambda n, sub=sub: _const_eval(n, sub)
+                    for o in outcomes(ev.body, scope, env={}, atom=atom, expand=False):
+                        if o.kind != "return":
+                            continue
+                        v = o.value
+                        if isinstance(v, ast.Call) and call_name(v) == "_convert_if_zero" and v.args:
+                            v = v.args[0]
+                        if not (isinstance(v, ast.BinOp) and isinstance(v.op, ast.MatMult)):
+                            continue
+                        # flatten the @ chain
+                        chain = []
+                        def flat(e):
+                            if isinstance(e, ast.BinOp) and isinstance(e.op, ast.MatMult):
+                                flat(e.left); flat(e.right)
+                            else:
+                                chain.append(e)
+                        flat(v)
+                        if len(chain) != 3:
+                            raise AnalysisError(R, f"op_eval returns a product of {len(chain)} factors: `{norm(v)[:80]}`")
+                        L, X, Rr = chain
+                        n_proj += 1
+                        okL = isinstance(L, ast.Subscript) and isinstance(L.value, ast.Name) and norm(L.slice) == "index[0]"
+                        okR = isinstance(Rr, ast.Subscript) and isinstance(Rr.value, ast.Name) and norm(Rr.slice) == "index[1]"
+                        wrapped = isinstance(X, ast.Call) and call_name(X) == "aslinearoperator" and len(X.args) == 1
+                        core = X.args[0] if wrapped else X
+                        okX = norm(core) == "operator[index[2:]]"
+                        if not (okL and okR and okX):
+                            bad.add(("operator_to_BlockSeries::op_eval returns L_{index[0]}^H . A . R_{index[1]}",
+                                     f"returns `{norm(v)[:100]}`; required <left family>[index[0]] @ operator[index[2:]] @ <right family>[index[1]]", o.node))
+                            continue
+                        fam.add((L.value.id, Rr.value.id))
+                        want_wrap = implicit and a == b == N - 1
+                        if wrapped != want_wrap:
+                            bad.add(("operator_to_BlockSeries::op_eval wraps only the implicit (last, last) block as LinearOperator",
+                                     f"block ({a}, {b}) of {N}, implicit={implicit}: wrapped={wrapped}", o.node))
+    if not n_proj:
+        raise AnalysisError(R, "op_eval: no path returning a projected block found")
+    for key, detail, node in sorted(bad, key=lambda x: x[0]):
+        rep.fail(R, key, detail, loc(node))
+    if not any("returns L_" in k for k, _d, _n in bad):
+        rep.ok(R, "operator_to_BlockSeries::op_eval returns L_{index[0]}^H . A . R_{index[1]}", f"{n_proj} projected returns on the index grid", loc(ev))
+    if not any("wraps only" in k for k, _d, _n in bad):
+        rep.ok(R, "operator_to_BlockSeries::op_eval wraps only the implicit (last, last) block as LinearOperator",
+               "evaluated for implicit in {False, True}, 2 and 3 blocks, every (i, j)", loc(ev))
+    if len(fam) != 1:
+        if bad:
+            return
+        raise AnalysisError(R, f"op_eval uses several projector families {sorted(fam)}")
+    LP, RP = next(iter(fam))
+    nb = outer_env.get("n_blocks")
+    rep.check(nb is not None and norm(nb) in (f"len({RP})", f"len({LP})"), R, "operator_to_BlockSeries number of blocks = number of projectors",
+              norm(nb) if nb is not None else "n_blocks not a straight-line local", loc(f))
+    # -- the two families -------------------------------------------------------------------------------------------
+    un = [s for s in own_nodes(f) if isinstance(s, ast.Assign) and isinstance(s.targets[0], ast.Tuple)
+          and isinstance(s.value, ast.Call) and call_name(s.value) == "_normalize_subspace_eigenvectors"]
+    if len(un) != 1 or len(un[0].targets[0].elts) != 2:
+        raise AnalysisError(R, "unpacking of _normalize_subspace_eigenvectors(...) not found")
+    RS, LS = (norm(e) for e in un[0].targets[0].elts)
+    branch = [s for s in f.body if isinstance(s, ast.If) and norm(canon(s.test)) in ("implicit", "not implicit")]
+    if len(branch) != 1:
+        raise AnalysisError(R, "`if implicit:` construction of the projector families not found")
+    br = branch[0]
+    arms = {True: br.body, False: br.orelse}
+    if norm(canon(br.test)) == "not implicit":
+        arms = {True: br.orelse, False: br.body}
+    env_i, env_e = run_block(arms[True]), run_block(arms[False])
+    cp = f"ComplementProjector(np.hstack({RS}), np.hstack({LS}))"
+    cp_alts = (cp, f"ComplementProjector(vecs=np.hstack({RS}), left_vecs=np.hstack({LS}))", f"ComplementProjector(np.hstack({RS}), left_vecs=np.hstack({LS}))")
+
+    def fam_implicit(e, first):
+        if not (isinstance(e, (ast.Tuple, ast.List)) and len(e.elts) == 2 and isinstance(e.elts[0], ast.Starred)):
+            return False
+        return first(e.elts[0].value) and norm(e.elts[1]) in cp_alts
+    r_i, l_i = env_i.get(RP), env_i.get(LP)
+    r_e, l_e = env_e.get(RP), env_e.get(LP)
+    if None in (r_i, l_i, r_e, l_e):
+        raise AnalysisError(R, f"projector families `{LP}`/`{RP}` are not assigned in both arms of `if implicit`")
+    ok_r = fam_implicit(r_i, lambda x: norm(_strip_seq(x)) == RS) and norm(_strip_seq(r_e)) == RS
+    rep.check(ok_r, R, "operator_to_BlockSeries right projectors are the right vectors R_j (+ complement projector)",
+              f"implicit: `{norm(r_i)[:90]}`; explicit: `{norm(r_e)[:60]}`", loc(br))
+    le = l_e
+    if isinstance(le, ast.IfExp):
+        t = norm(canon(le.test))
+        if t == f"{LS} is not None" and norm(le.orelse) == "None":
+            le = le.body
+        elif t == f"{LS} is None" and norm(le.body) == "None":
+            le = le.orelse
+    ok_l = fam_implicit(l_i, lambda x: _is_adjoint_each(x, LS)) and _is_adjoint_each(le, LS)
+    rep.check(ok_l, R, "operator_to_BlockSeries left projectors are the adjoints L_i^H (+ the same complement projector)",
+              f"implicit: `{norm(l_i)[:110]}`; explicit: `{norm(l_e)[:90]}`", loc(br))
+    rep.check(norm(r_i.elts[1]) in cp_alts if isinstance(r_i, (ast.Tuple, ast.List)) and len(r_i.elts) == 2 else False, R,
+              "operator_to_BlockSeries complement projector is 1 - [R_1..R_k].[L_1..L_k]^H over all explicit subspaces",
+              norm(r_i)[:120], loc(br))
 
 
 def _role(text: str) -> str:
